@@ -4,6 +4,13 @@ import json
 props = [json.loads(l) for l in open('/verif/properties.jsonl')]
 ASSUME = "Trusted base: the simulator (simrt scheduler, simetcd/simnet/simdisk/simtikv models), the go/ast rewrite (R1-R5) of a scratch copy of /repo, the deterministic-runtime overlay, and the oracle code. etcd, gRPC, TiKV and the OS clock are models; interleavings are explored at seams only; sampling, not proof."
 claimed = {
+ "C08": dict(level="exploration", engine="e2", design="7/C08",
+   text="Partial claim. A bootstrapped real PD leader with the real coordinator / OperatorController and 3-6 stores heartbeating through the real RegionHeartbeat handler over simulated streams; an admin client asks the real Handler / operator builder for transfer-leader / transfer-region (voters and learners) / transfer-peer / add-peer / add-learner / remove-peer operators with and without joint consensus, on regions in whatever state earlier operators left them; a TiKV model (which refuses what TiKV refuses) executes PD's commands one step at a time with drawn delays. Oracles per step: the current leader is never removed or demoted, a joint state is not left while the leader is a demoting voter, leadership never goes to a learner / demoting / absent peer, no second peer on a store, the last voter is never removed; per successful operator: voter count never below min(origin, target) and final peers / roles / leader exactly as requested. Only operators built inside the sampled runs are examined; the universal statement over all builder inputs is a pure-function question that sampling does not settle. One genuine gap (demote-before-add without joint consensus) is a known finding.",
+   technique="deterministic simulation executing each operator step on a TiKV model with per-step safety oracles",
+   note="C08 is claimed at exploration level for the step-by-step execution only; Builder.Build as a pure function of (origin, target, flags) is not enumerated."),
+ "C09": dict(level="exploration", engine="e2", design="7/C09",
+   text="The same world as C08 with 6-35 admin requests (incl. merge, split, remove-operator) and, in 2/3 of the runs, foreign conf changes, leader changes and splits injected at arbitrary points between heartbeats and dispatches. Monitor after every scheduler step on the real OperatorController: operator status only moves along the allowed graph and end statuses are absorbing; an operator first seen in the running set carries the region's epoch as served at admission; an operator that left the running set is in an end status and is remembered with it by GetOperatorStatus; every command PD sends carries an (epoch, leader) the region actually reported; an operator is not cancelled as stale while only its own steps changed the region.",
+   technique="deterministic simulation with a step-wise operator life-cycle monitor and command/heartbeat history oracle"),
  "C14": dict(level="fault_enumeration", engine="e2", design="7/C14",
    text="A bootstrapped real PD leader with 3-5 stores holding region peers. Sequential mode: groups of 12 runs share one sequence of PutStore / StoreHeartbeat (real gRPC handlers) and RemoveStore / UpStore / SetStoreWeight / UpdateStoreLabels / RemoveTombStoneRecords / checkStores (real RaftCluster methods) interleaved with region placements reported by the TiKV model; run k makes the k-th storage write of store data fail: a failed change leaves the served digest unchanged, after a successful change the stored record equals the served one, tombstone heartbeats and re-registrations are refused. Concurrent mode: the real checkStores loop and a heartbeat stream run concurrently. Monitor after every scheduler step: only Up->Offline, Offline->Up unless destroyed, Offline->Tombstone; a store holds no region peer at the step it turns Tombstone; no two live stores share an address.",
    technique="deterministic simulation with an enumerated storage failure at each store write and a step-wise state-machine monitor"),
